@@ -53,7 +53,11 @@ def asObj (j : Json) : R (Obj Rat) := do
   let od ← asODesc (fldD j "odesc" (Json.arr #[]))
   let rd ← asDesc (fldD j "rdesc" (Json.arr #[]))
   let pd ← asDesc (fldD j "pdesc" (Json.arr #[]))
-  match mk2d vecs od rd pd with
+  -- "n3d": the constructor was given square matrices of that size (`n_cond = x.shape[1]`)
+  let built ← match fldD j "n3d" Json.null with
+    | Json.null => pure (mk2d vecs od rd pd)
+    | jn => do pure (mk3d (← asNat jn) vecs od rd pd)
+  match built with
   | some o => pure o
   | none => throw "initial object rejected by the constructor"
 
@@ -89,7 +93,8 @@ def asOp (name : String) (j : Json) : R (Option Op) := do
   | "sort_alpha" => pure (some (.sortAlpha (← src) (← by_) (← fld j "reindex" >>= asBool)))
   | "sort_list" => pure (some (.sortList (← src) (← by_) (← asVals j) (← fld j "reindex" >>= asBool)))
   | "append" => pure (some (.append (← src) (← fld j "other" >>= asNat)))
-  | "concat" => pure (some (.concat (← fld j "srcs" >>= asList asNat)))
+  | "concat" => pure (some (.concat (← fld j "srcs" >>= asList asNat)
+      (← asOpt asStr (fldD j "target" Json.null))))
   | "copy" => pure (some (.copy (← src)))
   | "dict" => pure (some (.copy (← src)))
   | "from_partials" =>
@@ -115,6 +120,12 @@ def query (name : String) (s : Store Rat) (j : Json) : R Json := do
         pure (obj [("exc", Json.bool false),
           ("out", ofList (fun r => ofMatrix o.nCond (o.matrix r)) (List.range o.nRdm))])
     | "vectors" => pure (obj [("exc", Json.bool false), ("out", ofList ofVec o.vecs)])
+    | "len" => pure (obj [("exc", Json.bool false), ("out", ofNat o.nRdm)])
+    | "reversed" =>
+        let items := (List.range o.nRdm).reverse.map (fun r => o.getitem [r])
+        if items.all Option.isSome then
+          pure (obj [("exc", Json.bool false), ("out", ofList (ofOpt ofObj) items)])
+        else pure (obj [("exc", Json.bool true)])
     | "to_df" => pure (obj [("exc", Json.bool false), ("out", ofDf o.toDf)])
     | _ => throw s!"unknown session op {name}"
 
@@ -126,6 +137,11 @@ def session (j : Json) : R Json := do
   let mut out : Array Json := #[]
   for oj in ops do
     let name ← fld oj "op" >>= asStr
+    if name == "sort_unknown" then
+      -- `sort_by(desc=<neither 'alpha' nor a list>)`: not an operation of the model, the library
+      -- raises ValueError and nothing changes
+      out := out.push (obj [("exc", Json.bool true), ("store", ofStore s)])
+    else
     match ← asOp name oj with
     | some op =>
       match stepE cm s op with
